@@ -96,6 +96,25 @@ func allFeatures(mods []*sg.Mod) []string {
 func genFeat(t *rapid.T) FeatCase {
 	g := &sg.G{T: t, Cfg: sg.GenCfg{MaxMods: 3, ConfigFalse: true}}
 	c := FeatCase{Mods: g.GenSet()}
+	if g.Chance(1, 3, "twinfeatures") {
+		// three modules that each define a feature of the same name and write "if-feature zshared" without a prefix: on
+		// their own nodes, on a node one of them adds to the tree of another by an augment, and on a node of a grouping
+		// that another one uses - the name means the feature of the module the statement is written in, wherever the
+		// node ends up
+		str := &sg.TypeSpec{Name: "string"}
+		lf := func(n string) *sg.Node { return &sg.Node{Kind: "leaf", Name: n, Type: str, IfFeatures: []string{"zshared"}} }
+		feat := func() []*sg.Feature { return []*sg.Feature{{Name: "zshared"}} }
+		za := &sg.Mod{Name: "zta", Prefix: "zta", Features: feat(), Nodes: []*sg.Node{{Kind: "container", Name: "zta-top", Kids: []*sg.Node{lf("own-a"), {Kind: "leaf", Name: "plain", Type: str}}}}}
+		zb := &sg.Mod{Name: "ztb", Prefix: "ztb", Features: feat(), Imports: []sg.Import{{Mod: "zta", Prefix: "zta"}},
+			Groupings: []*sg.Grouping{{Name: "zg", Kids: []*sg.Node{lf("from-grouping-b"), {Kind: "leaf", Name: "gplain", Type: str}}}},
+			Augments:  []*sg.Augment{{Target: "/zta:zta-top", Kids: []*sg.Node{lf("from-augment-b")}}}}
+		zc := &sg.Mod{Name: "ztc", Prefix: "ztc", Features: feat(), Imports: []sg.Import{{Mod: "ztb", Prefix: "ztb"}},
+			Nodes: []*sg.Node{{Kind: "container", Name: "ztc-top", Kids: []*sg.Node{lf("own-c"), {Kind: "uses", Name: "ztb:zg"}, lf("own-c2")}}}}
+		if g.Bool("twinorder") {
+			zc.Nodes[0].Kids[0], zc.Nodes[0].Kids[1] = zc.Nodes[0].Kids[1], zc.Nodes[0].Kids[0]
+		}
+		c.Mods = append(c.Mods, za, zb, zc)
+	}
 	for _, f := range allFeatures(c.Mods) {
 		if g.Chance(1, 2, "on") {
 			c.On = append(c.On, f)
@@ -199,7 +218,7 @@ func checkFeatOne(c FeatCase) fw.Outcome {
 
 var featProp = fw.Register(&fw.Prop[FeatCase]{
 	ID: "C14", Name: "iffeature",
-	Rule: "generated module sets with features (dependency chains within and across modules) and if-feature on random nodes, with a drawn set of switched-on features; oracle (metamorphic): " +
+	Rule: "generated module sets with features (dependency chains within and across modules) and if-feature on random nodes (also features of one name in three modules, named without a prefix on own nodes, on nodes added to another module's tree and on nodes of a grouping another module uses), with a drawn set of switched-on features; oracle (metamorphic): " +
 		"the compiled schema equals that of the source in which every node whose transitive feature condition is false is deleted and all if-feature statements are removed; the per-module list of " +
 		"enabled features equals the transitively enabled set; non-trivial = a feature depending on another or a node with two if-features",
 	Gen: genFeat, Check: checkFeatOne,
